@@ -172,6 +172,9 @@ pub struct Src {
     pub stream_none: u32,
     // lifecycle
     pub synth_armed: bool,
+    /// a synthetic event this source announced in a dispatch that then failed: the loop still owes it
+    pub synth_owed: bool,
+    pub bs_calls: u32,
     pub life: LifeDispatch,
     // registration accounting
     pub reg_calls: [u32; 3],
@@ -234,6 +237,8 @@ impl Src {
             stream: None,
             stream_none: 0,
             synth_armed: false,
+            synth_owed: false,
+            bs_calls: 0,
             life: LifeDispatch::default(),
             reg_calls: [0; 3],
             reg_window: vec![],
